@@ -183,3 +183,25 @@ Proof.
     + exact Q.
 Qed.
 Print Assumptions c25_answered.
+
+(** Link between the two evaluators for the translator probes: agreement with the model implies
+    the property predicate evaluated on the numbers the real address translator produced. *)
+From Akita Require Import C25.Exec.
+Theorem c25_model_agreement_implies_property : forall k pid vaddr ppage ov op,
+  vaddr < two64 ->
+  check_case (ATCase k pid vaddr ppage ov op) = true ->
+  holds_on (ATCase k pid vaddr ppage ov op) = true.
+Proof.
+  intros k pid vaddr ppage ov op Hv CK. cbn [check_case] in CK.
+  apply andb_true_iff in CK. destruct CK as [C1 C2]. apply N.eqb_eq in C1. subst ov.
+  cbn [holds_on].
+  destruct ((k <? 64) && (ppage mod 2 ^ k =? 0) && (ppage + 2 ^ k <=? two64)) eqn:G; [|reflexivity].
+  apply andb_true_iff in G. destruct G as [G G3]. apply andb_true_iff in G. destruct G as [G1 G2].
+  apply N.ltb_lt in G1. apply N.eqb_eq in G2. apply N.leb_le in G3.
+  destruct (at_paddr_spec k ppage vaddr G1 G2 G3) as [a [E [_ [M D]]]].
+  rewrite E in C2. destruct op as [a'|]; [|discriminate]. cbn in C2. apply N.eqb_eq in C2. subst a'.
+  destruct (at_vpage_spec k vaddr G1 Hv) as [_ [A [L U]]].
+  rewrite M, D, A, !N.eqb_refl. cbn [andb].
+  apply andb_true_iff. split; [apply N.leb_le; exact L|apply N.ltb_lt; exact U].
+Qed.
+Print Assumptions c25_model_agreement_implies_property.
